@@ -1355,7 +1355,15 @@ func (r *Raft) sendRequestVote(id string, address string, votes *int, prevote bo
 	}
 
 	// Ensure this response is not stale. It is possible that this node has started another election.
-	if r.currentTerm > request.Term {
+	// A prevote carries the term of the election it asks about, one more than the term it was sent
+	// in: a prevote response is stale as soon as this node has reached that term. Otherwise a late
+	// response to the prevote that already made this node a candidate would be counted again once
+	// the node is a pre-candidate in the new term, and start an election nobody granted a prevote for.
+	sentTerm := request.Term
+	if prevote {
+		sentTerm--
+	}
+	if r.currentTerm > sentTerm {
 		return
 	}
 
